@@ -10,8 +10,6 @@ import (
 	"os"
 	"sync"
 	"time"
-
-	"github.com/goose-lang/primitive"
 )
 
 // UInt64Get converts the first 8 bytes of p to a uint64.
@@ -98,7 +96,22 @@ func Exit(n uint64) {
 // Not provided by sync.Cond, so we have to (inefficiently) implement this
 // ourselves.
 func WaitTimeout(cond *sync.Cond, timeoutMs uint64) {
-	primitive.WaitTimeout(cond, timeoutMs)
+	// The caller itself waits on cond, so no waiter outlives this call and
+	// steals a later Signal. A timer goroutine turns the timeout into a wakeup.
+	done := make(chan struct{})
+	go func() {
+		select {
+		case <-time.After(time.Duration(timeoutMs) * time.Millisecond):
+			// The caller holds cond.L until it is parked in Wait, so this
+			// Broadcast cannot be lost. Other waiters see a spurious wakeup.
+			cond.L.Lock()
+			cond.Broadcast()
+			cond.L.Unlock()
+		case <-done:
+		}
+	}()
+	cond.Wait()
+	close(done)
 }
 
 func TimeNow() uint64 {
